@@ -34,14 +34,15 @@ def ang_diff(a, b):
     return abs(((a - b) + math.pi / 2) % math.pi - math.pi / 2)
 
 
-def gen_galaxy(r):
+def gen_galaxy(r, frame=None):
     ny, nx = r.randint(110, 140), r.randint(110, 140)
     x0, y0 = nx / 2 + r.uniform(-8, 8), ny / 2 + r.uniform(-8, 8)
-    if r.random() < 0.5:
+    if frame in ('wide', 'tall') or (frame is None and r.random() < 0.5):
         # clearly non-square frame with the galaxy in the far part of the long axis (row / column mix-ups show there)
-        short, long_ = r.randint(104, 112), r.randint(165, 185)
+        short, long_ = r.randint(104, 112), r.randint(176, 195)      # the far coordinate always exceeds the short dimension
         far, mid = long_ - 56 + r.uniform(-4, 4), short / 2 + r.uniform(-3, 3)
-        (ny, nx, x0, y0) = (short, long_, far, mid) if r.random() < 0.5 else (long_, short, mid, far)
+        wide = (frame == 'wide') if frame in ('wide', 'tall') else (r.random() < 0.5)
+        (ny, nx, x0, y0) = (short, long_, far, mid) if wide else (long_, short, mid, far)
     eps = r.uniform(0.05, 0.8) if r.random() < 0.8 else r.choice([0.05, 0.8, 0.5])
     pa = r.uniform(0, math.pi)
     law = r.choice(['exp', 'gauss', 'sersic2', 'sersic3.5', 'exp'])
@@ -64,7 +65,7 @@ def recovery(rep, r, n):
     from photutils.isophote import build_ellipse_model
     fix_offset = r.randrange(6)
     for k in range(n):
-        gal = gen_galaxy(r)
+        gal = gen_galaxy(r, frame=['square', 'wide', 'tall'][(k + fix_offset) % 3])       # every run sees all three frame kinds
         img, truth = galaxy(gal['shape'], gal['x0'], gal['y0'], gal['eps'], gal['pa'], gal['law'], gal['r0'])
         snap = img.copy()
         sma0 = r.choice([10.0, 12.0, 15.0])
